@@ -273,9 +273,95 @@ def r5(ctx, R):
         raise AnalysisError(f"detect_fixed_format: {n} evidence patterns found")
 
 
+def _blanked(e):
+    """`" " * k + x[k:]` / `"      " + x[6:]`: the first k columns replaced by blanks, length kept"""
+    if not (isinstance(e, ast.BinOp) and isinstance(e.op, ast.Add)):
+        return False
+    l, r = e.left, e.right
+    k = None
+    if isinstance(l, ast.Constant) and isinstance(l.value, str) and l.value and not l.value.strip(" "):
+        k = len(l.value)
+    elif isinstance(l, ast.BinOp) and isinstance(l.op, ast.Mult):
+        a, b = l.left, l.right
+        if isinstance(b, ast.Constant) and isinstance(b.value, str):
+            a, b = b, a
+        if isinstance(a, ast.Constant) and a.value == " " and isinstance(b, ast.Constant) and isinstance(b.value, int):
+            k = b.value
+    if k is None:
+        return False
+    return isinstance(r, ast.Subscript) and isinstance(r.slice, ast.Slice) and isinstance(r.slice.lower, ast.Constant) and r.slice.lower.value == k and r.slice.upper is None
+
+
+def r6(ctx, R):
+    R.rule("C14.R6", "statement assembly in fixed form: every list of continuation lines that get_code_line returns receives, in the fixed-form arm, lines whose label/marker columns are blanked - a raw continuation line joined into the statement puts its column-6 marker (&, +, 1 ...) into the code text", floor=2, confirmed=2)
+    from .c02 import file_class
+
+    fc = file_class(ctx)
+    q = fc.methods.get("get_code_line")
+    if q is None:
+        raise AnalysisError("FortranFile.get_code_line not found")
+    f = ctx.m.funcs[q]
+    returned = set()
+    for n in ctx.m.walk_own(f.node):
+        if isinstance(n, ast.Return) and isinstance(n.value, ast.Tuple):
+            returned |= {e.id for e in n.value.elts if isinstance(e, ast.Name)}
+    arms = []
+    for n in ctx.m.walk_own(f.node):
+        if isinstance(n, ast.If) and isinstance(n.test, ast.Attribute) and n.test.attr == "fixed":
+            if any(isinstance(c.func, ast.Attribute) and c.func.attr == "match" and ctx.p.fregex_ref(f.rel, c.func.value) == "FIXED_CONT" for b in n.body for c in calls_in(b)):
+                arms.append(n)
+    if len(arms) < 2:
+        raise AnalysisError(f"get_code_line: {len(arms)} fixed-form arms testing FIXED_CONT found (backward and forward expected)")
+
+    from .shared import reaching_def_nodes
+
+    def raw(e, at, seen=frozenset()):
+        """the value is provably a line exactly as stored in the buffer"""
+        if isinstance(e, ast.Call) and isinstance(e.func, ast.Attribute) and e.func.attr == "get_line":
+            return True
+        if not isinstance(e, ast.Name):
+            return False
+        ds = reaching_def_nodes(ctx, f, at, e.id)
+        if not ds:
+            return False
+        for d in ds:
+            if not (isinstance(d, ast.Assign) and len(d.targets) == 1 and isinstance(d.targets[0], ast.Name)):
+                return False
+            k = (e.id, id(d))
+            if k in seen:
+                continue  # loop-carried copy: decided by the other definitions
+            if not raw(d.value, d, seen | {k}):
+                return False
+        return True
+
+    for arm in arms:
+        stores = {}
+        for b in arm.body:
+            for n in ast.walk(b):
+                if isinstance(n, ast.Call) and isinstance(n.func, ast.Attribute) and n.func.attr in ("append", "insert") and isinstance(n.func.value, ast.Name) and n.args:
+                    stores.setdefault(n.func.value.id, []).append((n.args[-1], n))
+                elif isinstance(n, ast.Assign) and isinstance(n.targets[0], ast.Subscript) and isinstance(n.targets[0].value, ast.Name):
+                    stores.setdefault(n.targets[0].value.id, []).append((n.value, n))
+        for name, sts in sorted(stores.items()):
+            if name not in returned:
+                continue
+            kinds = []
+            for v, n in sts:
+                st = ctx.m.enclosing_stmt(n) if not isinstance(n, ast.stmt) else n
+                kinds.append("blanked" if _blanked(v) else "raw" if raw(v, st) else "other")
+            where = f"{name} (fixed-form arm)"
+            if "blanked" in kinds:
+                R.ok("C14.R6", f.short, where, loc(f, sts[0][1]), f"stores: {kinds}")
+            elif kinds and all(k == "raw" for k in kinds):
+                R.violation("C14.R6", f.short, where, loc(f, sts[0][1]), f"only unmodified buffer lines are stored into {name}: a statement continued over three or more fixed-form lines is assembled with the continuation marker of the middle lines inside the code text (`obj%` / `     &  sub%` / `     &  member` -> `obj%&  sub%member`), unlike its free-form twin")
+            else:
+                R.undecided("C14.R6", f.short, where, loc(f, sts[0][1]), f"stores: {kinds}")
+
+
 def run(ctx, R):
     r1(ctx, R)
     r2(ctx, R)
     r3(ctx, R)
     r4(ctx, R)
     r5(ctx, R)
+    r6(ctx, R)
